@@ -94,27 +94,33 @@ def gen_hist_spec(rng):
         if rng.random() < 0.25 and sum(1 for m in sp["nodes"] if m["fn"] == fn) == 1:
             sp["fns"][fn]["shape"] = ["none"]
     sp["is_async"] = rng.random() < 0.4
+    if rng.random() < 0.5:
+        # tags as aliases: shared between functions, and substrings of each other ("m_1" in "m_10", "xm_1")
+        for fn in sorted(sp["fns"]):
+            if rng.random() < 0.5:
+                sp["fns"][fn]["tag"] = rng.choice(["m_1", "m_10", "m_1", "xm_1", "m_"])
     return sp, setup
 
 
-class _Filtered:
-    """Collector proxy: a check for another property re-uses a workload and reports only its own clauses."""
+def tags_by_site(sp):
+    return {i: sp["fns"][nd["fn"]]["tag"] for i, nd in enumerate(sp["nodes"]) if sp["fns"][nd["fn"]].get("tag") is not None}
 
-    def __init__(self, real, only):
-        object.__setattr__(self, "_real", real)
-        object.__setattr__(self, "_only", only)
 
-    def __getattr__(self, k):
-        return getattr(self._real, k)
-
-    def __setattr__(self, k, v):
-        setattr(self._real, k, v)
-
-    def violation(self, p, mech, w, r):
-        if self._only is None or mech in self._only:
-            self._real.violation(p, mech, w, r)
+def aliasize(rng, sp, ids, ts):
+    """Spell a selection with tags where possible; returns (aliases, the call sites they denote)."""
+    tg = tags_by_site(sp)
+    out, den = [], set()
+    for i in ts:
+        if i in tg and rng.random() < 0.5:
+            out.append(tg[i])
+            den |= {j for j, t in tg.items() if t == tg[i]}
         else:
-            self._real.counters["other_clause:" + mech] += 1
+            out.append(ids[i])
+            den.add(i)
+    return out, sorted(den)
+
+
+from .jobs import Filtered as _Filtered  # noqa: E402
 
 
 def c11_history(col, rng, hidx, jobref=None):
@@ -150,7 +156,8 @@ def c11_history(col, rng, hidx, jobref=None):
             continue
         if op == "exec_create":
             ts = rng.sample(range(n), rng.randint(1, min(3, n)))
-            kwp = {"target_nodes": [ids[i] for i in ts]}
+            al, ts = aliasize(rng, sp, ids, ts)
+            kwp = {"target_nodes": al}
             pending.setdefault(k, []).append((d.executor(**kwp), S.closure(sp, None, None, ts), kwp))
             hist.append(("executor_created_run_later", k, S.jsonable(kwp)))
             continue
@@ -171,7 +178,8 @@ def c11_history(col, rng, hidx, jobref=None):
             thunk = lambda: op_call(d, args)  # noqa: E731
         elif op == "exec":
             ts = rng.sample(range(n), rng.randint(0 if rng.random() < 0.1 else 1, min(3, n)))
-            kw = {"target_nodes": [ids[i] for i in ts]}
+            al, ts = aliasize(rng, sp, ids, ts)
+            kw = {"target_nodes": al}
             sel = S.closure(sp, None, None, ts)
             thunk = lambda: op_exec(d, kw, args)  # noqa: E731
         elif op == "exec_run_pending":
@@ -189,7 +197,8 @@ def c11_history(col, rng, hidx, jobref=None):
         elif op == "exec_setup":
             # executor(target_nodes=T).setup() == setup(target_nodes=T), in both flavours
             ts = rng.sample(range(n), rng.randint(1, min(3, n)))
-            kw = {"target_nodes": [ids[i] for i in ts]}
+            al, ts = aliasize(rng, sp, ids, ts)
+            kw = {"target_nodes": al}
             sel = S.closure(sp, None, None, ts) & set(setup)
             exo = d.executor(**kw)
 
@@ -203,7 +212,8 @@ def c11_history(col, rng, hidx, jobref=None):
         else:
             # an empty target list is a legal empty selection (nothing to set up), different from "not given"
             ts = rng.sample(range(n), rng.randint(0, 2))
-            kw = {"target_nodes": [ids[i] for i in ts]}
+            al, ts = aliasize(rng, sp, ids, ts)
+            kw = {"target_nodes": al}
             sel = S.closure(sp, None, None, ts) & set(setup)
             thunk = lambda: op_setup(d, kw)  # noqa: E731
         hist.append((op, k, S.jsonable(kw)))
